@@ -34,7 +34,7 @@ package badger
 // ---- expiry and deletion (C33) ----
 
 //@ func isDeletedOrExpired
-//@   props C33
+//@   props C33 C01
 //@   ensures[exact] result <==> (meta&bitDelete != 0 || (expiresAt != 0 && expiresAt <= uint64(now)))
 //@   assigns ghost now
 
@@ -243,7 +243,7 @@ package badger
 // ---- timestamp oracle (C02, C03, C34, C36) ----
 
 //@ func (*oracle).readTs
-//@   props C34 C01
+//@   props C34 C01 C03
 //@   requires !o.isManaged && o.readMark != nil && o.txnMark != nil
 //@   ensures[snapshot] result == old(o.nextTxnTs) - 1
 //@   ensures[waited] o.txnMark.doneUntil.v >= result
@@ -366,7 +366,7 @@ package badger
 // a value-log entry is stored as the pointer the value log returned for it, with the pointer
 // bit; nothing else differs. The index into b.Ptrs is in range (no value log in memory mode).
 //@ func (*DB).writeToLSM
-//@   props C06 C28 C10
+//@   props C06 C28 C10 C01 C03
 //@   requires b != nil && db.mt != nil && db.mt.sl != nil && db.threshold != nil
 //@   requires[entries] forall i int :: 0 <= i && i < len(b.Entries) ==> b.Entries[i] != nil
 //@   loop 1 invariant[range] -1 <= rangeindex && rangeindex < len(b.Entries)
@@ -714,7 +714,7 @@ package badger
 // broke this (known finding 16, fixed: the base level stepped over a non-empty size-based base
 // level when the next level was empty).
 //@ func (*levelsController).levelTargets
-//@   props C12
+//@   props C12 C01
 //@   light
 //@   loop 1 invariant[base-is-a-level] 0 <= t.baseLevel && t.baseLevel <= len(s.levels) && i < len(s.levels)
 //@   loop 2 invariant[base-kept] 0 <= t.baseLevel && t.baseLevel <= len(s.levels)
@@ -728,7 +728,7 @@ package badger
 // newer table must never go down while an older one stays); the picked range and tables are
 // recorded, and the compaction is registered against running ones.
 //@ func (*levelsController).fillTablesL0ToLbase
-//@   props C12 C14
+//@   props C12 C14 C01
 //@   light
 //@   loop 1 invariant[oldest-prefix] len(out) == rangeindex + 1
 //@   assert[only-overlapping] before call append : ret(overlapsWith#1)
@@ -739,7 +739,7 @@ package badger
 // timestamps are managed by the caller), which is what lets the conflict log and compactions
 // forget what only this transaction could still need.
 //@ func (*Txn).Discard
-//@   props C02 C34 C13
+//@   props C02 C34 C13 C03
 //@   light
 //@   assert[read-marked-done-once] before call doneRead : !old(txn.discarded) && txn.discarded && arg0 == txn.db.orc && arg1 == txn && !txn.db.orc.isManaged
 //@   assert[second-discard-is-a-no-op] before return#1 : old(txn.discarded)
@@ -844,7 +844,7 @@ package badger
 // with the discard-earlier bit or the NumVersionsToKeep-th; a table is ended only between
 // distinct user keys; the drop prefixes are tested against the user key.
 //@ func (*levelsController).subcompact.addKeys
-//@   props C29 C13 C12 C14 C33
+//@   props C29 C13 C12 C14 C33 C01
 //@   light
 //@   assert[user-key] before call hasAnyPrefixes : arg0 == ret(ParseKey#1)
 //@   assert[of-current-key] before call ParseKey#1 : arg0 == ret(Key#1)
@@ -1331,7 +1331,7 @@ package badger
 // flight (C15). Tombstones may be dropped only when no table outside this compaction can hold
 // an older version: for an L0 to L0 compaction the L0 tables left out can (C12).
 //@ func (*levelsController).subcompact
-//@   props C12 C13 C15 C36
+//@   props C12 C13 C15 C36 C01
 //@   light
 //@   assert[discard-ts-from-oracle] before call discardAtOrBelow : arg0 == s.kv.orc
 //@   assert[overlap-below-output] before call checkOverlap : arg2 == cd.nextLevel.level + 1 && arg1 == ret(allTables#1) && arg0 == s
@@ -1438,7 +1438,7 @@ package badger
 // Value: the caller's function receives the prefetched value, or the bytes yieldItemValue
 // produced; a prefetch error or a read error is returned instead of calling it.
 //@ func (*Item).Value
-//@   props C06
+//@   props C06 C01
 //@   light
 //@   assert[prefetched-value] before call fn#1 : arg0 == item.val && item.err == nil
 //@   assert[read-value] before call fn#2 : arg0 == ret0(yieldItemValue#1) && ret2(yieldItemValue#1) == nil
@@ -1446,7 +1446,7 @@ package badger
 
 // ValueCopy: a copy of the prefetched value, or of the bytes yieldItemValue produced.
 //@ func (*Item).ValueCopy
-//@   props C06
+//@   props C06 C01
 //@   light
 //@   assert[copy-of-prefetched] before call SafeCopy#1 : arg0 == dst && arg1 == item.val
 //@   assert[copy-of-read] before call SafeCopy#2 : arg0 == dst && arg1 == ret0(yieldItemValue#1)
@@ -1528,7 +1528,7 @@ package badger
 // (file, offset, encoded length) is appended in entry order, and the entry's own meta is
 // restored; each request ends with exactly one pointer per entry.
 //@ func (*valueLog).write
-//@   props C06 C16 C10
+//@   props C06 C16 C10 C03
 //@   light
 //@   assert[decision-per-entry] before call skipVlogAndSetThreshold : arg0 == e && e == b.Entries[j]
 //@   assert[encoded-at-pointer] before call encodeEntry : arg0 == curlf && arg2 == e && arg3 == p.Offset && p.Fid == curlf.fid && p.Offset == ret(woffset#1) && e.meta&(bitTxn|bitFinTxn) == 0
@@ -1555,7 +1555,7 @@ package badger
 // file and this offset, with its meta (pointer and transaction bits cleared), user meta, expiry,
 // key and value as read from the file.
 //@ func (*valueLog).rewrite.fe
-//@   props C15 C33 C06
+//@   props C15 C33 C06 C01
 //@   light
 //@   assert[expired-skipped] before call get : !ret(isDeletedOrExpired#1) && arg0 == vlog.db && arg1 == e.Key
 //@   assert[expiry-of-entry] before call isDeletedOrExpired : arg0 == e.meta && arg1 == e.ExpiresAt
@@ -1568,7 +1568,7 @@ package badger
 // entries are written back before the old file is unregistered; the file is deleted at once only
 // when no iterator is open, otherwise its deletion is deferred.
 //@ func (*valueLog).rewrite
-//@   props C15
+//@   props C15 C01
 //@   light
 //@   assert[clamp-before-scan] before call iterate : called(MaxVersion#1) && vlog.db.gcDiscardTs.v == ret(MaxVersion#1) && vlog.db.gcActive.v != 0 && arg0 == f
 //@   assert[written-back-before-unregister] before call Lock : called(iterate#1) && ret1(iterate#1) == nil
@@ -1795,7 +1795,7 @@ package badger
 // on the unchanged tree (known finding: reachable when value-log GC deletes the file an item
 // obtained from Txn.Get points into, see /verif/known_findings.json).
 //@ func (*Item).yieldItemValue
-//@   props C06 C15
+//@   props C06 C15 C01
 //@   light
 //@   assert[inline-copy] before call copy : (item.meta & bitValuePointer) == 0 && arg1 == item.vptr
 //@   assert[pointer-decoded] before call Decode#1 : arg1 == item.vptr
@@ -1809,7 +1809,7 @@ package badger
 // memTable.Put: the memtable's maxVersion is the maximum of the versions put into it (the
 // end-of-transaction marker goes to the WAL only and is not counted); the WAL is written first.
 //@ func (*memTable).Put
-//@   props C11 C10
+//@   props C11 C10 C03
 //@   requires mt.sl != nil
 //@   ensures[max-version] result == nil && value.Meta&bitFinTxn == 0 ==> mt.maxVersion == (tsOf(key) > old(mt.maxVersion) ? tsOf(key) : old(mt.maxVersion))
 //@   ensures[marker-not-counted] value.Meta&bitFinTxn != 0 ==> mt.maxVersion == old(mt.maxVersion)
@@ -1944,7 +1944,7 @@ package badger
 // smallest key while the level's lock is held; the old tables lose their reference only after
 // the lock was released.
 //@ func (*levelHandler).replaceTables
-//@   props C12 C14
+//@   props C12 C14 C01
 //@   light
 //@   assert[kept-iff-not-deleted] before call append#1 : !found && held(s.RWMutex)
 //@   assert[dropped-iff-deleted] before call subtractSize : found && arg1 == t
@@ -1974,7 +1974,7 @@ package badger
 //@   assert[the-levels-tables-under-its-lock] before call Slice : held(s.RWMutex)
 
 //@ func (*levelHandler).deleteTables
-//@   props C12 C14
+//@   props C12 C14 C01
 //@   light
 //@   assert[kept-iff-not-deleted] before call append : !found && held(s.RWMutex)
 //@   assert[dropped-iff-deleted] before call subtractSize : found && arg1 == t
@@ -1982,7 +1982,7 @@ package badger
 
 // Level 0 keeps its tables in arrival order (newest last); a flush stalls when the level is full.
 //@ func (*levelHandler).tryAddLevel0Table
-//@   props C12 C14
+//@   props C12 C14 C01 C03
 //@   light
 //@   assert[stall-when-full] before return#1 : !result && len(s.tables) >= s.db.opt.NumLevelZeroTablesStall
 //@   assert[appended-last] before call IncrRef : arg0 == t && len(s.tables) >= 1 && s.tables[len(s.tables)-1] == t && held(s.RWMutex)
@@ -2076,7 +2076,7 @@ package badger
 // checkOverlap: the key range of the given tables is tested against every level from `lev`
 // downwards, and one overlapping table is enough.
 //@ func (*levelsController).checkOverlap
-//@   props C12
+//@   props C12 C01
 //@   light
 //@   assert[range-of-given-tables] before call getKeyRange : arg0 == tables
 //@   assert[only-levels-from-lev] before call overlappingTables : rangeindex + 1 >= lev && arg0 == s.levels[rangeindex + 1] && held(s.levels[rangeindex + 1].RWMutex)
@@ -2125,7 +2125,7 @@ package badger
 // compactBuildTables: the directory is synced once every table builder finished without error,
 // before the new tables are handed to the caller (who records them in the MANIFEST).
 //@ func (*levelsController).compactBuildTables
-//@   props C10 C08
+//@   props C10 C08 C12 C01
 //@   light
 //@   assert[directory-synced-after-builders] before call syncDir : called(Finish#1) && ret(Finish#1) == nil && arg1 == s.kv.opt.Dir
 //@   assert[tables-only-after-sync] before return : result2 == nil ==> called(syncDir#1) && ret(syncDir#1) == nil
@@ -2145,7 +2145,7 @@ package badger
 // immutable memtables (newest last) before a fresh one replaces it, all under the DB lock; when
 // the flusher's queue is full nothing changes and the writer retries.
 //@ func (*DB).ensureRoomForWrite
-//@   props C12 C08
+//@   props C12 C08 C01 C03
 //@   light
 //@   assert[room-means-nothing-to-do] before return#1 : result == nil && !ret(isFull#1)
 //@   assert[old-memtable-kept-until-flushed] before call newMemTable : held(db.lock) && len(db.imm) >= 1 && db.imm[len(db.imm)-1] == db.mt
@@ -2214,7 +2214,7 @@ package badger
 
 // A flushed table is recorded in the MANIFEST before it becomes visible to compactions.
 //@ func (*levelsController).addLevel0Table
-//@   props C08 C14 C03 C01
+//@   props C08 C14 C03 C01 C12
 //@   light
 //@   assert[manifest-before-publish] before call tryAddLevel0Table : t.IsInmemory || (called(addChanges#1) && ret(addChanges#1) == nil)
 //@   assert[publish-this-table] before call tryAddLevel0Table : arg1 == t && arg0 == s.levels[0]
@@ -2222,7 +2222,7 @@ package badger
 
 // An immutable memtable leaves the list and gives up its WAL only after its flush succeeded.
 //@ func (*DB).flushMemtable
-//@   props C08 C03 C01
+//@   props C08 C03 C01 C12
 //@   light
 //@   assert[flush-before-release] before call DecrRef : called(handleMemTableFlush#1) && ret(handleMemTableFlush#1) == nil && held(db.lock)
 //@   assert[flush-this-memtable] before call handleMemTableFlush : arg0 == db && arg1 == mt && mt != nil
@@ -2233,7 +2233,7 @@ package badger
 // in the MANIFEST first); a table that could not be created is not added, and the error of
 // adding it is the flush's error (so the caller keeps the memtable and its WAL).
 //@ func (*DB).handleMemTableFlush
-//@   props C08 C12
+//@   props C08 C12 C01 C03
 //@   light
 //@   assert[all-entries-of-this-memtable] before call buildL0Table : arg0 == ret(NewUniIterator#1) && len(arg1) == 0
 //@   assert[iterator-of-memtable] before call NewUniIterator : arg0 == mt.sl && !arg1
